@@ -1190,7 +1190,7 @@ fn reformat_case(label: &str, text: &str, only: Option<&[Atom]>, st: &Mutex<Stat
                 }
                 if judged {
                     failed = true;
-                    bad_atoms.extend(atoms.iter().copied());
+                    if atoms.len() == 1 { bad_atoms.extend(atoms.iter().copied()); }
                     cl.lock().unwrap().add(
                         &format!("reformat-diff:{name}"),
                         "rejected",
@@ -1213,7 +1213,7 @@ fn reformat_case(label: &str, text: &str, only: Option<&[Atom]>, st: &Mutex<Stat
                     continue;
                 }
                 failed = true;
-                bad_atoms.extend(atoms.iter().copied());
+                if atoms.len() == 1 { bad_atoms.extend(atoms.iter().copied()); }
                 cl.lock().unwrap().add(
                     &format!("reformat-diff:{name}"),
                     &tkey,
@@ -1571,9 +1571,11 @@ fn replay(path: &Path, ctx: &Ctx) -> ! {
             let (ca, cb) = (cli(&ufo), cli(&ds));
             println!("ufo-lone: {}\nufo-designspace: {}\ncli-ufo-lone: {}\ncli-ufo-designspace: {}", a.brief(), b.brief(), ca.brief(), cb.brief());
             let ok = (a == b || matches!((&a, &b), (Out::Fail(_), Out::Fail(_)))) && eq_cli_lib(ctx, &ca, &a) && eq_cli_lib(ctx, &cb, &b);
-            if !ok {
-                if let (Out::Font(x), Out::Font(y)) = (&a, &b) {
-                    println!("tables: {}", table_diff(x, y).1);
+            for (n, x, y) in [("ufo-lone vs ufo-designspace", &a, &b), ("cli-ufo-lone vs ufo-lone", &ca, &a), ("cli-ufo-designspace vs ufo-designspace", &cb, &b)] {
+                if let (Out::Font(x), Out::Font(y)) = (x, y) {
+                    if x != y {
+                        println!("{n}: {}", table_diff(x, y).1);
+                    }
                 }
             }
             println!("replay: the case {}", if ok { "no longer fails" } else { "still fails" });
